@@ -13,11 +13,25 @@ import io, struct, hashlib, itertools
 from pycoin.merkle import merkle, merkle_pair
 from pycoin.block import Block, BadMerkleRootError
 from pycoin.encoding.hash import double_sha256
-from pycoin.message.make_parser_and_packer import post_unpack_merkleblock
+try:        # optional: a module-level helper, not the public entry point (network.message.parse is)
+    from pycoin.message.make_parser_and_packer import post_unpack_merkleblock
+except Exception:
+    post_unpack_merkleblock = None
 from pycoin.symbols.btc import network as BTC
 from pycoin.symbols.ltc import network as LTC
 
 PROP = "C14"
+# Cases that look INSIDE a function of /repo (a local computation re-executed from its source, a module-level helper called
+# directly) are optional: when the internal cannot be isolated on the current tree they are skipped and counted here; the
+# whole-function correspondence through the public entry points carries the verdict.
+SKIPPED = {}
+
+
+def _skip(key, why):
+    first = key not in SKIPPED
+    SKIPPED[key] = SKIPPED.get(key, 0) + 1
+    if first:
+        PARTIAL.append("skipped internal-step cases '%s' on this tree (%s); covered by the whole-function cases" % (key, why))
 EXTRA_PROPS = ["C14compose"]   # composition theorems (see DESIGN.md section 0)
 DRIVER = "C14"
 INTERACTIVE = True
@@ -191,7 +205,12 @@ def apply_op(b, op):
         txt = str(b)
         if repr(b) != txt:
             raise AssertionError("repr differs from str")
-        return bytes.fromhex(txt[txt.index("[") + 1:txt.index("]")])
+        import re
+        ids = re.findall(r"[0-9a-f]{64}", txt)
+        if not ids:                                     # rendering changed: fall back to id() itself
+            _skip("str(block) rendering", "no 64-digit hex id in str(block)")
+            return bytes.fromhex(b.id())
+        return bytes.fromhex(ids[0])
     if k == "s":
         f = io.BytesIO()
         b.stream_header(f)
@@ -331,10 +350,18 @@ def impl_block_parse(coin, inc, chk, data):
                                  canon(len(data) - f.tell()), call(b.as_bin), call(lambda: bytes.fromhex(b.id())))
 
 
+def wire_expressible(total, hashes, flags, root):
+    return 0 <= total < (1 << 32) and len(root) == 32 and all(len(h) == 32 for h in hashes)
+
+
 def impl_post_unpack(total, hashes, flags, root):
-    d = dict(header=Block(1, b"\0" * 32, root, 0, 0, 0), total_transactions=total, hashes=tuple(hashes),
-             flags=tuple(flags))
-    return [bytes(x) for x in post_unpack_merkleblock(d, None)["tx_hashes"]]
+    """post_unpack_merkleblock on the parsed fields.  When that helper cannot be called directly on this tree, the same
+    fields go through the public entry point (they are equal by C14_merkleblock_wire whenever the fields fit the wire)."""
+    if post_unpack_merkleblock is not None:
+        d = dict(header=Block(1, b"\0" * 32, root, 0, 0, 0), total_transactions=total, hashes=tuple(hashes),
+                 flags=tuple(flags))
+        return [bytes(x) for x in post_unpack_merkleblock(d, None)["tx_hashes"]]
+    return impl_parse_merkleblock(mb_wire(root, total, hashes, flags))
 
 
 def impl_parse_merkleblock(data):
@@ -541,15 +568,26 @@ def gen_proof_inputs(rng, tier):
             yield txids, m, False
         yield txids, [False] * n, False
         yield txids, [True] * n, False
-    if tier == "thorough":
-        for n in (127, 128, 129, 255, 257, 1000):
-            txids = rand_hashes(rng, n)
-            yield txids, [rng.random() < 0.1 for _ in range(n)], False
+        yield txids, [i == 0 for i in range(n)], False              # left edge only
+        yield txids, [i == n - 1 for i in range(n)], False          # right edge only (single-child chain when odd)
+        if tier == "thorough" or n in (7, 8, 9, 15, 16, 17, 31, 32, 33, 63, 64, 65):
+            yield txids, [i % 2 == 0 for i in range(n)], False
+            yield txids, [i >= n - 2 for i in range(n)], False
+            yield txids, [i < (n + 1) // 2 for i in range(n)], False
+    for n in ((127, 128, 129, 255, 256, 257) if tier == "quick" else (127, 128, 129, 255, 256, 257, 511, 513, 1000)):
+        txids = rand_hashes(rng, n)
+        yield txids, [i == n - 1 for i in range(n)], False
+        yield txids, [i == 0 for i in range(n)], False
+        yield txids, [rng.random() < 0.1 for _ in range(n)], False
 
 
 def _pu_case(total, hashes, flags, root, meta=None):
-    return Case("post_unpack %s %s %s %s" % (arg(total), arg(hashes), arg(bytes(flags)), arg(root)),
-                (lambda: call(impl_post_unpack, total, hashes, flags, root)), meta)
+    """list with one Case, or [] when the helper is not callable on this tree and the fields do not fit the wire"""
+    if post_unpack_merkleblock is None and not wire_expressible(total, hashes, flags, root):
+        _skip("post_unpack(non-wire fields)", "post_unpack_merkleblock is not importable")
+        return []
+    return [Case("post_unpack %s %s %s %s" % (arg(total), arg(hashes), arg(bytes(flags)), arg(root)),
+                 (lambda: call(impl_post_unpack, total, hashes, flags, root)), meta)]
 
 
 def _mb_case(data, meta=None):
@@ -597,8 +635,23 @@ def model_cases(rng, tier):
         yield Case("block_parse s%s %s %s %s" % (coin, arg(inc), arg(chk), arg(data)),
                    (lambda coin=coin, inc=inc, chk=chk, data=data: impl_block_parse(coin, inc, chk, data)))
     # --- merkleblock: honest proofs, every single-position corruption, wire format, malformed wire
+    lw = isolate_level_widths()
     for t in [0, 1, 2, 3, 4, 5, 7, 8, 9, 0xffff, 0x10000, 0xffffffff] + [rng.getrandbits(32) for _ in range(20)]:
-        yield Case("level_widths " + arg(t), (lambda t=t: _impl_level_widths(t)))
+        if lw is None:
+            _skip("level_widths", "the per-level width computation cannot be isolated from post_unpack_merkleblock")
+        else:
+            yield Case("level_widths " + arg(t), (lambda t=t: call(lambda: list(lw(t)))))
+    # every width / depth boundary through the PUBLIC entry point: one-leaf proofs in trees of any size
+    for T in BOUNDARY_TOTALS + [rng.getrandbits(rng.choice([5, 9, 17, 32])) or 1 for _ in range(12 if tier == "quick" else 300)]:
+        for pos in sorted(set([0, T - 1, T // 2, (T - 1) // 2, rng.randrange(T), rng.randrange(T)])):
+            bits, hashes, root, leaf = synth_path_proof(rng, T, pos)
+            fl = pack_flag_bits(bits)
+            yield _mb_case(mb_wire(root, T, hashes, fl), {"synth": [T, pos]})
+            yield from _pu_case(T, hashes, fl, root, {"synth": [T, pos]})
+            # the same proof claimed for neighbouring totals: the width of some level changes
+            for T2 in (T - 1, T + 1):
+                if 1 <= T2 < (1 << 32) and rng.random() < 0.5:
+                    yield _mb_case(mb_wire(root, T2, hashes, fl), {"synth": [T, pos], "claimed": T2})
     k = 0
     for txids, m, exhaustive in gen_proof_inputs(rng, tier):
         k += 1
@@ -607,12 +660,12 @@ def model_cases(rng, tier):
         yield Case("build %s %s" % (arg(txids), arg(m)), (lambda txids=txids, m=m: canon(impl_build(txids, m))))
         yield Case("matched %s %s" % (arg(txids), arg(m)),
                    (lambda txids=txids, m=m: canon([t for t, b in zip(txids, m) if b])))
-        yield _pu_case(n, hashes, fl, root)
+        yield from _pu_case(n, hashes, fl, root)
         yield _mb_case(mb_wire(root, n, hashes, fl, trailing=rng.randbytes(rng.choice([0, 0, 3]))))
-        if exhaustive or k % 3 == 0:
+        if exhaustive or k % 3 == 0 or (len(txids) in BOUNDARY_TOTALS and k % 2 == 0):
             for kind, idx, (t2, h2, f2, r2) in corruptions(rng, txids, m, all_positions=exhaustive):
-                if rng.random() < 0.8:
-                    yield _pu_case(t2, h2, f2, r2, {"kind": kind, "idx": idx})
+                if rng.random() < (0.8 if exhaustive else 0.5):
+                    yield from _pu_case(t2, h2, f2, r2, {"kind": kind, "idx": idx})
                 else:
                     yield _mb_case(mb_wire(r2, t2, h2, f2), {"kind": kind, "idx": idx})
     # equal siblings (duplicate txids): the left == right test
@@ -622,7 +675,7 @@ def model_cases(rng, tier):
         txids[i + 1] = txids[i]
         for m in ([True] * n, [j == i for j in range(n)], [False] * n):
             t, hashes, fl, _ = ref_build(txids, m)
-            yield _pu_case(t, hashes, fl, ref_root(txids))
+            yield from _pu_case(t, hashes, fl, ref_root(txids))
     # malformed wire messages
     root = rng.randbytes(32)
     good = mb_wire(root, 1, [root], b"\x01")
@@ -652,32 +705,106 @@ def model_cases(rng, tier):
         t = rng.randint(0, 9)
         hashes = rand_hashes(rng, rng.randint(0, 5))
         fl = rng.randbytes(rng.randint(0, 3))
-        yield _pu_case(t, hashes, fl, rng.choice(hashes + [rng.randbytes(32)]))
+        yield from _pu_case(t, hashes, fl, rng.choice(hashes + [rng.randbytes(32)]))
 
 
-def _impl_level_widths(count):
-    """the first loop of post_unpack_merkleblock, observed through the function itself is not possible (local);
-    re-executed here from the source of /repo so that an edit of the loop is seen"""
-    import ast, inspect, textwrap
-    src = textwrap.dedent(inspect.getsource(post_unpack_merkleblock))
-    fn = ast.parse(src).body[0]
-    body = []
-    for st in fn.body:
-        if isinstance(st, ast.Expr) and isinstance(st.value, ast.Constant):
-            continue
-        body.append(st)
-        if isinstance(st, ast.Expr) and isinstance(st.value, ast.Call) and getattr(st.value.func, "attr", "") == "reverse":
-            break
-    else:
-        return "!HARNESS:no-reverse"
-    mod = ast.Module(body=body, type_ignores=[])
-    ast.fix_missing_locations(mod)
-    env = {"d": {"total_transactions": count}}
+BOUNDARY_TOTALS = [1, 2, 3, 4, 5, 6, 7, 8, 9, 15, 16, 17, 31, 32, 33, 63, 64, 65, 127, 128, 129, 255, 256, 257, 1000,
+                   65535, 65536, 65537, (1 << 31) - 1, 1 << 31, (1 << 31) + 1, (1 << 32) - 1]
+
+
+def pack_flag_bits(bits):
+    fl = bytearray((len(bits) + 7) // 8)
+    for p, b in enumerate(bits):
+        if b:
+            fl[p // 8] |= 1 << (p % 8)
+    return bytes(fl)
+
+
+def synth_path_proof(rng, total, pos):
+    """BIP37 proof of the single leaf `pos` in a tree of `total` leaves whose other subtrees are random hashes
+    (reference, after Core: no tree of `total` leaves is ever built).  Returns (bits, hashes, root, leaf)."""
+    bits, hashes = [], []
+    leaf = rng.randbytes(32)
+
+    def node(height, idx):
+        if (pos >> height) != idx:
+            bits.append(False)
+            h = rng.randbytes(32)
+            hashes.append(h)
+            return h
+        bits.append(True)
+        if height == 0:
+            hashes.append(leaf)
+            return leaf
+        left = node(height - 1, idx * 2)
+        if idx * 2 + 1 < ref_width(total, height - 1):
+            right = node(height - 1, idx * 2 + 1)
+        else:
+            right = left
+        return dsha(left + right)
+    root = node(ref_height(total), 0)
+    return bits, hashes, root, leaf
+
+
+_LW = []
+
+
+def isolate_level_widths():
+    """OPTIONAL internal step: the per-level width list that post_unpack_merkleblock computes before the traversal.
+    Tried in turn: the statements up to `.reverse()` re-executed from the function's source; a one-argument module-level
+    helper whose name the function references and that returns such a list.  Each candidate is accepted only if it
+    yields lists of ints ending in the count for a few probe values.  None when the step cannot be isolated: the cases
+    are then skipped (the public-entry cases above cover every width boundary)."""
+    if _LW:
+        return _LW[0]
+    cands = []
     try:
-        exec(compile(mod, "<level_widths>", "exec"), env)
-    except Exception as e:
-        return "!" + exn_tag(e)
-    return canon(list(env["level_widths"]))
+        import ast, inspect, textwrap
+        fn = ast.parse(textwrap.dedent(inspect.getsource(post_unpack_merkleblock))).body[0]
+        body = []
+        found = False
+        for st in fn.body:
+            if isinstance(st, ast.Expr) and isinstance(st.value, ast.Constant):
+                continue
+            body.append(st)
+            if isinstance(st, ast.Expr) and isinstance(st.value, ast.Call) and getattr(st.value.func, "attr", "") == "reverse":
+                found = True
+                break
+        if found:
+            mod = ast.Module(body=body, type_ignores=[])
+            ast.fix_missing_locations(mod)
+            code = compile(mod, "<level_widths>", "exec")
+            target = body[-1].value.func.value.id
+
+            def from_source(count, code=code, target=target):
+                env = dict(getattr(post_unpack_merkleblock, "__globals__", {}))
+                env["d"] = {"total_transactions": count}
+                exec(code, env)
+                return env[target]
+            cands.append(from_source)
+    except Exception:
+        pass
+    try:
+        g = post_unpack_merkleblock.__globals__
+        for name in post_unpack_merkleblock.__code__.co_names:
+            f = g.get(name)
+            if callable(f) and getattr(f, "__module__", None) == post_unpack_merkleblock.__module__ \
+                    and getattr(getattr(f, "__code__", None), "co_argcount", 0) == 1 and "width" in name:
+                cands.append(f)
+    except Exception:
+        pass
+    chosen = None
+    for c in cands:
+        try:
+            ok = all(isinstance(c(t), list) and all(isinstance(x, int) for x in c(t)) and c(t)[0] == 1
+                     and c(t)[-1] == max(t, 1) for t in (1, 2, 5, 8, 1000))
+        except Exception:
+            ok = False
+        if ok:
+            chosen = c
+            break
+    _LW.append(chosen)
+    return chosen
 
 
 def nontrivial(line, r):
